@@ -8,33 +8,39 @@ EXTENDS OrdNumbers, Sequences, TLC
 
 CONSTANTS MaxLen
 Alphabet == {0, 1, 3, 4, 127, 128, 129, 131, 132, 255}
-VARIABLE bs
+VARIABLES input, verdict     \* verdict: "todo" | "ok" | "conforms" | "roundtrip"
 Short == UNION {[1..n -> Alphabet] : n \in 0..MaxLen}
 Long == {[i \in 1..n |-> IF i = 1 THEN a ELSE IF i = n THEN z ELSE IF i = n - 1 THEN y ELSE m] :
            n \in 18..21, a \in {128, 255}, m \in {128, 255}, y \in {3, 4, 128, 131, 132, 255}, z \in Alphabet}
-Init == bs \in Short \cup Long
-Next == UNCHANGED bs
-Spec == Init /\ [][Next]_bs
+Init == input \in Short \cup Long /\ verdict = "todo"
 
 \* the automaton, as in varint::decode
+Acc(n, v, i) == Add(n, Mul(FromNat(v), PowS(128, i - 1)))
 RECURSIVE Dec(_, _, _)
 Dec(b, i, n) == IF i > Len(b) THEN [st |-> "unterminated", n |-> <<>>, len |-> 0]
                 ELSE IF i - 1 > 18 THEN [st |-> "overlong", n |-> <<>>, len |-> 0]
-                ELSE LET v == b[i] % 128 IN
-                     IF i - 1 = 18 /\ v > 3 THEN [st |-> "overflow", n |-> <<>>, len |-> 0]
-                     ELSE LET n2 == Add(n, Mul(FromNat(v), PowS(128, i - 1))) IN
-                          IF b[i] < 128 THEN [st |-> "ok", n |-> n2, len |-> i] ELSE Dec(b, i + 1, n2)
+                ELSE IF i - 1 = 18 /\ b[i] % 128 > 3 THEN [st |-> "overflow", n |-> <<>>, len |-> 0]
+                ELSE IF b[i] < 128 THEN [st |-> "ok", n |-> Acc(n, b[i] % 128, i), len |-> i]
+                ELSE Dec(b, i + 1, Acc(n, b[i] % 128, i))
 \* the encoder
 RECURSIVE Enc(_)
 Enc(n) == LET d == DivS(n, 128) IN IF d.q = <<>> THEN <<d.r>> ELSE <<d.r + 128>> \o Enc(d.q)
 
 Conforms ==
-  LET r == Dec(bs, 1, <<>>)
-      t == FirstTerm(bs, 1)
-      fits == t # 0 /\ t <= 19 /\ (t = 19 => bs[19] % 128 <= 3)
-  IN IF fits THEN r.st = "ok" /\ r.len = t /\ r.n = VarintValue(bs, t) /\ Lt(r.n, TwoPow128)
-     ELSE r.st # "ok" /\ VarintErrOk(bs, r.st)
+  \* (TLC: a LET name must not coincide with a formal parameter of a recursive operator it is passed to)
+  LET r == Dec(input, 1, <<>>)
+      term == FirstTerm(input, 1)
+      fits == term # 0 /\ term <= 19 /\ (term = 19 => input[19] % 128 <= 3)
+  IN IF fits THEN r.st = "ok" /\ r.len = term /\ r.n = VarintValue(input, term) /\ Lt(r.n, TwoPow128)
+     ELSE r.st # "ok" /\ VarintErrOk(input, r.st)
 RoundTrip ==
-  LET r == Dec(bs, 1, <<>>) IN
+  LET r == Dec(input, 1, <<>>) IN
   r.st = "ok" => LET e == Enc(r.n) IN Dec(e, 1, <<>>).n = r.n /\ Dec(e, 1, <<>>).len = Len(e) /\ Len(e) <= r.len
+\* the checks are evaluated in an action (TLC caches lazily evaluated operator arguments there;
+\* as invariants over a variable the nested BigNat recursion re-evaluates them exponentially)
+Next == /\ verdict = "todo"
+        /\ verdict' = IF ~Conforms THEN "conforms" ELSE IF ~RoundTrip THEN "roundtrip" ELSE "ok"
+        /\ UNCHANGED input
+Spec == Init /\ [][Next]_<<input, verdict>>
+AllConform == verdict \in {"todo", "ok"}
 =============================================================================
